@@ -24,6 +24,15 @@ chk("C02",
     "Trusted: TLC; the structural frame splitter of the harness; zlib for minimal deflate completions. Drop timing after a close frame was sent, pong replies while CLOSING and close codes 1012-1014 are left open by the spec (RFC silent).",
     "TLA+ spec (WsRecv.tla) model-checked with TLC; exhaustive decision-table execution against the real protocol classes with TLC batch trace validation (WsRecvTrace.tla)", "5/C02")
 
+chk("C01",
+    "spec/WsChannel.tla models one direction of a connection at the grain of the code (sendMessage with its exact fragmentation loop, streaming API, sendData's queueing discipline, the _send pump, a piece-wise receiver); TLC checks WirePiecesInOrder, WireWellFormed, InOrderExactlyOnce, NothingInvented, ReceiverNeverFails, AllDeliveredWhenQuiet and the liveness property EventuallyDelivered (fair Pump/Recv) for all interleavings of 2-3 messages x fragment x chop x sync settings; seeded random scenarios over all four send APIs, option grids, boundary payload lengths and boundary-aware read cuts run on a real client/server pair (Twisted and asyncio) and WsChannelTrace.tla validates every recorded trace: each written header is decoded in TLC and run through the same Framing grammar, each delivery must be the next fully written message of the peer with identical type/length/bytes, and everything accepted must be delivered at the end.",
+    "Trusted: TLC; structural frame splitter; byte comparison of payloads in the harness. Lengths >= 2^31 not executed. Option pairs compatible as documented.",
+    "TLA+ spec (WsChannel.tla) model-checked with TLC incl. liveness; TLC batch trace validation (WsChannelTrace.tla) of executions of a real client/server pair", "5/C01")
+chk("C16",
+    "Receive side: WsRecv.tla fails with 1009 in the Header action (before any payload step) and TLC checks DeliveredWithinLimits; real endpoints are fed messages of size limit-1/limit/limit+1/x100 for limits {1,125,126,65535,65536} spread over 1-4 fragments with the offending payload withheld in part of the cases, and WsRecvTrace demands the failure in the header event. Send side and decompression limit: WsChannel.tla (OverLimitRefused, RefusedNeverOnWire) and pair scenarios validated by WsChannelTrace (PayloadExceededError iff over the limit, nothing written, later messages intact; an over-decompression-limit message is delivered identical or refused with 1009, never altered). Two recorded defects (F16, F10) are matched by named deviation actions of the trace spec in a second validation pass and reported as KNOWN-FINDING.",
+    "Trusted: TLC, harness frame splitter, zlib for constructing exact-size deflate streams. With compression the receive limits are compared with wire sizes.",
+    "TLA+ specs (WsRecv.tla, WsChannel.tla) model-checked with TLC; TLC batch trace validation (WsRecvTrace, WsChannelTrace with deviation actions for known findings)", "5/C16")
+
 NA_ALL = ["C%02d" % i for i in range(1, 21)]
 for p in NA_ALL:
     if p not in CHECKS:
